@@ -6,6 +6,7 @@ instantiated at an arbitrary ordered field `K` with an arbitrary floor function 
 -/
 import Mahotas.Proofs.C18Shift
 import Mahotas.Proofs.C18Filter
+import Mahotas.Proofs.C18Order3
 import Mathlib.Data.Rat.Floor
 
 open Mahotas Mahotas.C18
@@ -262,6 +263,34 @@ theorem C18_prefilter_inverts_order4_partial {K : Type} [Field K] (z1 z2 l1 l2 c
     simp only [hs, hp] at key
     field_simp
     linear_combination 18432 * key
+
+/-- **C18-T2/T4 (partial: integer shifts at order 3 on a line).** Composition of the pieces for the cubic case
+in one dimension: if the coefficient line holds what the one-pole prefilter produces from the samples `f`
+(`weight = 6`, exact pole `z² + 4z + 1 = 0`, **any** initial value of the causal pass), then `shift` by an integer
+`d` at order 3 — the `zoom_shift` model: coordinate `kk − d`, start knot, the weights `(⅙, ⅔, ⅙, 0)`, mirror folding of
+the knot beyond the end, accumulation — returns exactly the sample `f[kk − d]` at every output index whose source
+`kk − d` lies in `[1, n−1]`. **Missing**: source index 0 (depends on the initial sum, see
+`C18_prefilter_inverts_partial`), sources outside the array (they are first sent by the border rule to an index
+inside the array — `mapCoord_int` — to which the same statement then applies; not composed here), more than one
+dimension, orders 2 and 4. -/
+theorem C18_integer_shift_order3_line_partial {K : Type} [Field K] [LinearOrder K] [IsStrictOrderedRing K]
+    {fl : K → Int} (h : IsFloor fl) (m : Mode) (cval z c0 : K) (hz : z * z + 4 * z + 1 = 0)
+    (hz1 : z * z - 1 ≠ 0) (h6 : (6 : K) ≠ 0) (n : Nat) (f : Nat → K) (im : Img K) (hshape : im.shape = [n])
+    (hdata : ∀ k, k < n → im.getD [((k : Nat) : Int)] 0 = onePole z c0 n (fun i => 6 * f i) k)
+    (kk d : Int) (i : Nat) (hkk : 0 ≤ kk) (hi : kk - d = (i : Int)) (h1 : 1 ≤ i) (h2 : i + 1 ≤ n) :
+    pixel fl 3 m cval im [some (-(d : K))] [none] [kk] = f i := by
+  rw [pixel3_line h m cval im n hshape kk d i hkk hi h1 h2]
+  obtain ⟨_, hint, hlast⟩ := (C18_prefilter_inverts_partial z c0 n (by omega) hz1 f).2 hz h6
+  have e1 : (i : Int) - 1 = ((i - 1 : Nat) : Int) := by omega
+  by_cases e : i + 1 = n
+  · have e2 : i - 1 = n - 2 := by omega
+    have e3 : i = n - 1 := by omega
+    rw [if_pos e, e1, hdata (i - 1) (by omega), hdata i (by omega), e2]
+    rw [e3] at *
+    exact hlast
+  · have e2 : (i : Int) + 1 = ((i + 1 : Nat) : Int) := by omega
+    rw [if_neg e, e1, e2, hdata (i - 1) (by omega), hdata i (by omega), hdata (i + 1) (by omega)]
+    exact hint i h1 (by omega)
 
 /-- **C18-T3 (shape and corners).** `zoom` onto a requested shape returns an image of exactly that shape
 (also through `resize_to`, `resize_rgb_to`, `imresize` with an integer size, which pass the requested
